@@ -1,3 +1,3 @@
 SPECIFICATION Spec
-CONSTANTS MaxLen = 4
+CONSTANTS MaxLen = 5
 CHECK_DEADLOCK FALSE
